@@ -230,11 +230,12 @@ def parseEntRef (s : String) : Option (String × String) :=
   | [n, e] => if e = "" then none else some (n, e)
   | _ => none
 
+/-- values for system fields (`id`, `room_id`, …) are outside the op language: `bad-op` -/
 def parseVals (s : String) : Option (List (String × DKind × String)) :=
   (splitList s ";").mapM fun t =>
     match t.splitOn ":" with
-    | [f, "i", v] => some (f, DKind.int, v)
-    | [f, "s", v] => some (f, DKind.str, v)
+    | [f, "i", v] => if systemFields.any (·.1 == f) then none else some (f, DKind.int, v)
+    | [f, "s", v] => if systemFields.any (·.1 == f) then none else some (f, DKind.str, v)
     | _ => none
 
 def rowsStr (rs : List (Nat × List (String × Option String))) : String :=
